@@ -9,7 +9,9 @@ use crate::elem::{Class, Key, Val};
 use crate::ledger;
 use micromap::{Entry, Map, Set};
 use serde_json::{json, Value};
+use crate::replay::with_n;
 use std::cell::Cell;
+use std::collections::HashSet;
 use std::fmt::Write as _;
 
 #[derive(Clone, Copy, Debug)]
@@ -544,6 +546,77 @@ pub fn exec_map<const N: usize>(cage: &mut Cage<Map<Key, Val, N>>, op: &Value, c
         "fmt" => {
             let style = s(op, "style");
             fmt_map(&cage.m, style, ctx)
+        }
+        "clone" => {
+            let m = &cage.m;
+            let c = match call(ctx, || m.clone()) {
+                None => return json!(["panic"]),
+                Some(c) => c,
+            };
+            bind_clones(ctx, cage.m.iter().flat_map(|(k, v)| [k.serial, v.serial]).collect());
+            let mut copy = Cage::new(c);
+            let cl: Vec<Value> = copy.m.iter().map(|(k, v)| ctx.je(k, v)).collect();
+            {
+                let (x, y) = (&copy.m, &cage.m);
+                if call(ctx, || x == y) != Some(true) || call(ctx, || y == x) != Some(true) {
+                    ctx.note("C15", "a fresh clone does not compare equal to its original".into());
+                }
+            }
+            let then = &op["then"];
+            let on_copy = s(op, "on") == "copy";
+            let then_ret = if s(then, "name") == "none" {
+                json!(["unit"])
+            } else if on_copy {
+                exec_map(&mut copy, then, ctx)
+            } else {
+                exec_map(cage, then, ctx)
+            };
+            let other: Vec<Value> =
+                if on_copy { cage.m.iter().map(|(k, v)| ctx.je(k, v)).collect() } else { copy.m.iter().map(|(k, v)| ctx.je(k, v)).collect() };
+            if !copy.intact() {
+                ctx.note("C15,C03", "memory outside the clone was written".into());
+            }
+            if s(op, "survivor") == "copy" {
+                std::mem::swap(&mut cage.m, &mut copy.m);
+            }
+            let _ = call(ctx, || drop(copy));
+            ctx.span = cage.span();
+            json!({"cl": cl, "then": then_ret, "other": other})
+        }
+        "serde" => {
+            let fmt = s(op, "fmt");
+            let mcap = i(op, "m") as usize;
+            let (data, announced, emitted) = match ser_any(&cage.m, fmt, true) {
+                Some(x) => x,
+                None => return json!(["panic"]),
+            };
+            fn de<const M: usize>(fmt: &str, data: &[u8], orig: &dyn Fn(&Map<Key, Val, M>) -> bool, ctx: &mut Ctx) -> Value {
+                let r = std::panic::catch_unwind(std::panic::AssertUnwindSafe(|| -> Option<Map<Key, Val, M>> {
+                    if fmt == "json" {
+                        serde_json::from_slice(data).ok()
+                    } else {
+                        bincode::serde::decode_from_slice(data, bincode::config::legacy()).ok().map(|x| x.0)
+                    }
+                }));
+                match r {
+                    Ok(Some(d)) => {
+                        let ents: Vec<Value> = d.iter().map(|(k, v)| json!([0, k.class(), k.ver, 0, v.content])).collect();
+                        let eq = orig(&d);
+                        for (k, v) in d.iter() {
+                            ctx.stash_serials.push(k.serial);
+                            ctx.stash_serials.push(v.serial);
+                        }
+                        ctx.stash.push(Box::new(d));
+                        json!({"de": ents, "ok": true, "eq": eq})
+                    }
+                    _ => json!({"de": [], "ok": false, "eq": false}),
+                }
+            }
+            let m = &cage.m;
+            let mut r = with_n!(mcap, de, fmt, &data, &|d| d == m && m == d, ctx);
+            r["announced"] = json!(announced);
+            r["emitted"] = json!(emitted);
+            r
         }
         other => panic!("exec_map: unknown op {other}"),
     }
@@ -1133,6 +1206,76 @@ pub fn exec_set<const N: usize>(cage: &mut Cage<Set<Key, N>>, op: &Value, ctx: &
                 }
             }
         }
+        "clone" => {
+            let m = &cage.m;
+            let c = match call(ctx, || m.clone()) {
+                None => return json!(["panic"]),
+                Some(c) => c,
+            };
+            bind_clones(ctx, cage.m.iter().map(|k| k.serial).collect());
+            let mut copy = Cage::new(c);
+            let cl: Vec<Value> = copy.m.iter().map(|k| ctx.je_set(k)).collect();
+            {
+                let (x, y) = (&copy.m, &cage.m);
+                if call(ctx, || x == y) != Some(true) || call(ctx, || y == x) != Some(true) {
+                    ctx.note("C15", "a fresh clone does not compare equal to its original".into());
+                }
+            }
+            let then = &op["then"];
+            let on_copy = s(op, "on") == "copy";
+            let then_ret = if s(then, "name") == "none" {
+                json!(["unit"])
+            } else if on_copy {
+                exec_set(&mut copy, then, ctx)
+            } else {
+                exec_set(cage, then, ctx)
+            };
+            let other: Vec<Value> =
+                if on_copy { cage.m.iter().map(|k| ctx.je_set(k)).collect() } else { copy.m.iter().map(|k| ctx.je_set(k)).collect() };
+            if !copy.intact() {
+                ctx.note("C15,C03", "memory outside the clone was written".into());
+            }
+            if s(op, "survivor") == "copy" {
+                std::mem::swap(&mut cage.m, &mut copy.m);
+            }
+            let _ = call(ctx, || drop(copy));
+            ctx.span = cage.span();
+            json!({"cl": cl, "then": then_ret, "other": other})
+        }
+        "serde" => {
+            let fmt = s(op, "fmt");
+            let mcap = i(op, "m") as usize;
+            let (data, announced, emitted) = match ser_any(&cage.m, fmt, false) {
+                Some(x) => x,
+                None => return json!(["panic"]),
+            };
+            fn de<const M: usize>(fmt: &str, data: &[u8], orig: &dyn Fn(&Set<Key, M>) -> bool, ctx: &mut Ctx) -> Value {
+                let r = std::panic::catch_unwind(std::panic::AssertUnwindSafe(|| -> Option<Set<Key, M>> {
+                    if fmt == "json" {
+                        serde_json::from_slice(data).ok()
+                    } else {
+                        bincode::serde::decode_from_slice(data, bincode::config::legacy()).ok().map(|x| x.0)
+                    }
+                }));
+                match r {
+                    Ok(Some(d)) => {
+                        let ents: Vec<Value> = d.iter().map(|k| json!([0, k.class(), k.ver, 0, 0])).collect();
+                        let eq = orig(&d);
+                        for k in d.iter() {
+                            ctx.stash_serials.push(k.serial);
+                        }
+                        ctx.stash.push(Box::new(d));
+                        json!({"de": ents, "ok": true, "eq": eq})
+                    }
+                    _ => json!({"de": [], "ok": false, "eq": false}),
+                }
+            }
+            let m = &cage.m;
+            let mut r = with_n!(mcap, de, fmt, &data, &|d| d == m && m == d, ctx);
+            r["announced"] = json!(announced);
+            r["emitted"] = json!(emitted);
+            r
+        }
         "s_fmt" => {
             let style = s(op, "style");
             let m = &cage.m;
@@ -1184,4 +1327,61 @@ impl<I> std::fmt::Debug for NoDebug<'_, I> {
     fn fmt(&self, _f: &mut std::fmt::Formatter<'_>) -> std::fmt::Result {
         Ok(())
     }
+}
+
+/// Bind the objects made by `clone` to the model's clone tags (20 + source tag) and check
+/// that every stored object was cloned exactly once and nothing else was (C15).
+fn bind_clones(ctx: &mut Ctx, stored: Vec<u32>) {
+    let clones = ledger::with(|l| l.clones.clone());
+    let mut seen = HashSet::new();
+    for (src, new) in &clones {
+        if !seen.insert(*src) {
+            ctx.note("C15", format!("object #{src} was cloned more than once"));
+        }
+        if let Some(t) = ctx.tags.rk.get(src).copied() {
+            ctx.tags.bind_k(20 + t, *new);
+        } else if let Some(t) = ctx.tags.rv.get(src).copied() {
+            ctx.tags.bind_v(20 + t, *new);
+        } else {
+            ctx.note("C15", format!("clone() cloned object #{src}, which is not stored in the container"));
+        }
+    }
+    for sr in stored {
+        if !seen.contains(&sr) {
+            ctx.note("C15", format!("stored object #{sr} was not cloned by clone()"));
+        }
+    }
+}
+
+/// Serialize with serde_json or bincode (legacy config: fixed 8-byte length prefix) and
+/// read back what was announced and how many entries were actually emitted (C20).
+fn ser_any<T: serde::Serialize>(m: &T, fmt: &str, is_map: bool) -> Option<(Vec<u8>, usize, usize)> {
+    let r = std::panic::catch_unwind(std::panic::AssertUnwindSafe(|| {
+        if fmt == "json" {
+            let sj = serde_json::to_vec(m).ok()?;
+            let v: Value = serde_json::from_slice(&sj).ok()?;
+            let n = if is_map { v.as_object()?.len() } else { v.as_array()?.len() };
+            // JSON has no length prefix: what is announced is not observable there
+            Some((sj, n, n))
+        } else {
+            let b = bincode::serde::encode_to_vec(m, bincode::config::legacy()).ok()?;
+            if b.len() < 8 {
+                return None;
+            }
+            let announced = u64::from_le_bytes(b[0..8].try_into().unwrap()) as usize;
+            // entries: key = 8-byte length + bytes of "c.r"; value (maps only) = one byte
+            let mut pos = 8;
+            let mut emitted = 0;
+            while pos + 8 <= b.len() {
+                let l = u64::from_le_bytes(b[pos..pos + 8].try_into().unwrap()) as usize;
+                pos += 8 + l + if is_map { 1 } else { 0 };
+                emitted += 1;
+            }
+            if pos != b.len() {
+                emitted = usize::MAX / 2; // trailing garbage: not a whole number of entries
+            }
+            Some((b, announced, emitted))
+        }
+    }));
+    r.ok().flatten()
 }
